@@ -351,9 +351,8 @@ def gen_drv(tier, rng):
             for d in "nio":
                 cases.append(drv_case("chain", [], [(kind,) + r + (2,)], [(0, d)], tag="out+port"))
     for d1, d2 in itertools.product("nio", repeat=2):
-        if (d1, d2) != ("n", "i"):   # a dir=None port listed before an Input port of the same undriven signal is
-            # itself resolved to Input: outside the theorem's hypothesis (each signal is a port at most once)
-            cases.append(drv_case("fan", [], [], [(0, d1), (0, d2)], tag="port+port"))
+        cases.append(drv_case("fan", [], [], [(0, d1), (0, d2)], tag="port+port"))
+        cases.append(drv_case("chain", [], [("inst", 0, 1, 2)], [(0, d1), (0, d2)], tag="port+port"))
         cases.append(drv_case("fan", [(0, 2, 1, "comb", "slice", False)], [], [(0, d1), (0, d2)], tag="port+port"))
     # (6) hand-written: S2 reproducer (8-bit), mixed-width arrays, sliced switch value, zero-width targets
     s8 = {"0": 8}
@@ -527,6 +526,41 @@ def edeps(e, sigw=None):
     raise ValueError(k)
 
 
+CLK_SID, RST_SID = 8, 9     # clock / reset signal of domain "a" when the case declares it ("cd")
+
+
+def norm_stmt(st):
+    """list form [dom, sid, lo, hi, e, cond] -> dict form {"asg": dom, "tgt": ["sl", sid, lo, hi], "e", "cond"}"""
+    if isinstance(st, dict):
+        return st
+    dom, sid, lo, hi, e, cond = st
+    return {"asg": dom, "tgt": ["sl", sid, lo, hi], "e": e, "cond": cond}
+
+
+def tgt_len(t):
+    if t[0] == "sl":
+        return t[3] - t[2]
+    if t[0] == "part":
+        return t[5]
+    return max(hi - lo for _s, lo, hi in t[2])
+
+
+def tgt_positions(t):
+    """[(position k of the target, (sid, bit) it may address, selector expression or None)]"""
+    if t[0] == "sl":
+        return [(k, (t[1], t[2] + k), None) for k in range(t[3] - t[2])]
+    if t[0] == "part":
+        _p, sid, lo, hi, off, w, stride = t
+        width = hi - lo
+        n = min((width + stride - 1) // stride, 2 ** eshape(off)[0])
+        return [(k, (sid, lo + o * stride + k), off) for o in range(n) for k in range(w) if o * stride + k < width]
+    return [(k, (sid, lo + k), t[1]) for sid, lo, hi in t[2] for k in range(hi - lo)]
+
+
+def ff_deps(c):
+    return {(CLK_SID, 0)} | ({(RST_SID, 0)} if c.get("cd", {}).get("async") else set())
+
+
 def gt_graph(c):
     g = {}
 
@@ -535,21 +569,23 @@ def gt_graph(c):
             src = per_bit[i - lo] if i - lo < len(per_bit) else set()
             g.setdefault((sid, i), set()).update(src | common)
     for st in c["st"]:
-        if isinstance(st, dict):
-            if "mem" in st:
-                if st["mem"] == "comb":
-                    add(st["sid"], st["lo"], st["hi"], [], _all(edeps(st["addr"])))
-            elif "iob" in st:
-                add(st["sid"], st["lo"], st["hi"], edeps(st["iob"]), _all(edeps(st["oe"])))
-            continue       # instance outputs, prints, asserts, write ports: no comb path to a signal
-        dom, sid, lo, hi, e, cond = st
-        if dom != "comb":
-            continue
-        d = _ext(edeps(e), eshape(e)[1], hi - lo)
-        cd = set()
-        if cond is not None:
-            cd = _all(edeps(cond[1] if cond[0] == "case" else cond))
-        add(sid, lo, hi, d, cd)
+        st = norm_stmt(st)
+        if "mem" in st:
+            add(st["sid"], st["lo"], st["hi"], [], _all(edeps(st["addr"])) if st["mem"] == "comb" else set())
+        elif "iob" in st:
+            add(st["sid"], st["lo"], st["hi"], edeps(st["iob"]), _all(edeps(st["oe"])))
+        elif "asg" in st:
+            t, e, cond = st["tgt"], st["e"], st["cond"]
+            d = _ext(edeps(e), eshape(e)[1], tgt_len(t))
+            cd = set()
+            if cond is not None:
+                cd = _all(edeps(cond[1] if cond[0] == "case" else cond))
+            for k, bit, sel in tgt_positions(t):
+                if st["asg"] != "comb":
+                    g.setdefault(bit, set()).update(ff_deps(c))
+                else:
+                    g.setdefault(bit, set()).update(d[k] | cd | (_all(edeps(sel)) if sel is not None else set()))
+        # instance outputs, prints, asserts, write ports: no comb path to a signal
     return g
 
 
@@ -573,7 +609,12 @@ def build_cyc(c):
     from amaranth.hdl._ast import AnyConst, Initial
     from amaranth.hdl import (Module, Signal, Cat, Const, Mux, Array, Print, Assert, Instance,
                               IOBufferInstance, IOPort, MemoryData, MemoryInstance)
+    from amaranth.hdl import ClockDomain
     sig = {int(k): Signal(w, name=f"s{k}") for k, w in c["sigw"].items()}
+    cd = None
+    if "cd" in c:
+        cd = ClockDomain("a", async_reset=bool(c["cd"].get("async")))
+        sig[CLK_SID], sig[RST_SID] = cd.clk, cd.rst
     cnt = [0]
 
     def ex(e):
@@ -627,41 +668,59 @@ def build_cyc(c):
                 "sub": lambda: a - b, "mul": lambda: a * b, "div": lambda: a // b, "mod": lambda: a % b,
                 "shl": lambda: a << b, "shr": lambda: a >> b, "eq": lambda: a == b, "ne": lambda: a != b,
                 "lt": lambda: a < b, "le": lambda: a <= b, "gt": lambda: a > b, "ge": lambda: a >= b}[k]()
-    m = Module()
-    for st in c["st"]:
+    # module tree: 0 = top, 1 = child of top, 2 = child of 1; statement i lives in module c["mods"][i]
+    M = [Module(), Module(), Module()]
+    placement = c.get("mods") or [0] * len(c["st"])
+    if any(placement):
+        M[0].submodules.u1 = M[1]
+        M[1].submodules.u2 = M[2]
+    if cd is not None:
+        M[0].domains.a = cd
+    for st, mi_ in zip(c["st"], placement):
+        m = M[mi_]
         cnt[0] += 1
-        if isinstance(st, dict):
-            if "mem" in st:
-                tgt = sig[st["sid"]][st["lo"]:st["hi"]]
-                mi = MemoryInstance(data=MemoryData(shape=len(tgt), depth=2, init=[]), attrs={})
-                if st.get("wport"):
-                    mi.write_port(domain="a", addr=Const(0, 1), data=Const(0, len(tgt)), en=Const(1, 1))
-                mi.read_port(domain=st["mem"], addr=ex(st["addr"]), data=tgt,
-                             en=Const(1, 1), transparent_for=())
-                m.submodules[f"mem{cnt[0]}"] = mi
-            elif "iob" in st:
-                tgt = sig[st["sid"]][st["lo"]:st["hi"]]
-                m.submodules[f"iob{cnt[0]}"] = IOBufferInstance(IOPort(len(tgt), name=f"io{cnt[0]}"),
-                                                                i=tgt, o=ex(st["iob"]), oe=ex(st["oe"]))
-            elif "inst" in st:
-                m.submodules[f"inst{cnt[0]}"] = Instance("foo", i_x=ex(st["inst"]),
-                                                         o_y=sig[st["sid"]][st["lo"]:st["hi"]])
-            elif "print" in st:
-                m.d[st.get("dom", "comb")] += Print(ex(st["print"]))
-            elif "assert" in st:
-                m.d[st.get("dom", "comb")] += Assert(ex(st["assert"]))
-            continue
-        dom, sid, lo, hi, e, cond = st
-        a = sig[sid][lo:hi].eq(ex(e))
-        if cond is None:
-            m.d[dom] += a
-        elif cond[0] == "case":
-            with m.Switch(ex(cond[1])):
-                with m.Case(cond[2]):
-                    m.d[dom] += a
+        st = norm_stmt(st)
+        if "mem" in st:
+            tgt = sig[st["sid"]][st["lo"]:st["hi"]]
+            mi = MemoryInstance(data=MemoryData(shape=len(tgt), depth=2, init=[]), attrs={})
+            if st.get("wport"):
+                mi.write_port(domain="a", addr=Const(0, 1), data=Const(0, len(tgt)), en=Const(1, 1))
+            mi.read_port(domain=st["mem"], addr=ex(st["addr"]), data=tgt,
+                         en=Const(1, 1), transparent_for=())
+            m.submodules[f"mem{cnt[0]}"] = mi
+        elif "iob" in st:
+            tgt = sig[st["sid"]][st["lo"]:st["hi"]]
+            m.submodules[f"iob{cnt[0]}"] = IOBufferInstance(IOPort(len(tgt), name=f"io{cnt[0]}"),
+                                                            i=tgt, o=ex(st["iob"]), oe=ex(st["oe"]))
+        elif "inst" in st:
+            m.submodules[f"inst{cnt[0]}"] = Instance("foo", i_x=ex(st["inst"]),
+                                                     o_y=sig[st["sid"]][st["lo"]:st["hi"]])
+        elif "print" in st:
+            m.d[st.get("dom", "comb")] += Print(ex(st["print"]))
+        elif "assert" in st:
+            m.d[st.get("dom", "comb")] += Assert(ex(st["assert"]))
         else:
-            with m.If(ex(cond)):
+            dom, t, e, cond = st["asg"], st["tgt"], st["e"], st["cond"]
+            if t[0] == "sl":
+                lhs = sig[t[1]][t[2]:t[3]]
+            elif t[0] == "part":
+                base = sig[t[1]][t[2]:t[3]]
+                lhs = base.bit_select(ex(t[4]), t[5]) if t[6] == 1 else base.word_select(ex(t[4]), t[5])
+            else:
+                lhs = Array([sig[s_][lo:hi] for s_, lo, hi in t[2]])[ex(t[1])]
+            if len(lhs) != tgt_len(t):
+                raise ValueError(f"harness target length wrong for {t}")
+            a = lhs.eq(ex(e))
+            if cond is None:
                 m.d[dom] += a
+            elif cond[0] == "case":
+                with m.Switch(ex(cond[1])):
+                    with m.Case(cond[2]):
+                        m.d[dom] += a
+            else:
+                with m.If(ex(cond)):
+                    m.d[dom] += a
+    m = M[0]
     return m, [sig[i] for i in c.get("ports", [])]
 
 
@@ -714,7 +773,8 @@ def run_cyc(c):
         return [-2, v2, v[0]]
     cyc, _ = gt_cyclic(c)
     gt_ok = int((v[0] == 1) == cyc)
-    return v + [1] + so + [gt_ok]
+    # ... ++ [rejected with CombinationalCycle (vs the Gallina design-level oracle), Python oracle agrees]
+    return v + [1] + so + [int(v[0] == 1), gt_ok]
 
 
 def coq_net(n):
@@ -823,6 +883,10 @@ def gen_cyc(tier, rng):
             # the expression may be wider than 1 bit: only bit 0 lands in the target unless we widen the target
             st.append(["comb", sid, b, b + 1, e, cond])
         c = {"k": "cyc", "sigw": sigw, "st": st, "ports": [2], "variant": "ring"}
+        place = [rng.randrange(3) for _ in st] if rng.random() < 0.5 else None
+        if place:
+            c["mods"] = place
+            c["variant"] = "ring-hier"
         cases.append(c)
         # cut one edge: replace one statement by a constant / an input / a sync statement
         j = rng.randrange(len(st))
@@ -836,7 +900,10 @@ def gen_cyc(tier, rng):
             st2[j][0] = "a"
         else:
             del st2[j]
-        cases.append({"k": "cyc", "sigw": sigw, "st": st2, "ports": [2], "variant": "cut-" + how})
+        c2 = {"k": "cyc", "sigw": sigw, "st": st2, "ports": [2], "variant": "cut-" + how}
+        if place:
+            c2["mods"] = [m_ for i_, m_ in enumerate(place) if not (how == "drop" and i_ == j)]
+        cases.append(c2)
     # word-level operator with the cycle through the entered bit / a sibling bit; bits of one signal feeding others
     for w in (2, 3, 4):
         for tb in range(w):
@@ -853,6 +920,11 @@ def gen_cyc(tier, rng):
                              ["comb", 0, 0, 1, ["b", 2, 0], None]]})
         cases.append({"k": "cyc", "sigw": {"0": w, "2": 2}, "ports": [2], "variant": "rotate",
                       "st": [["comb", 0, 0, w, ["cat", [["sl", 0, w - 1, w], ["sl", 0, 0, w - 1]]], None]]})
+    # the audit's example: s.bit_select(s[0:2], 1).eq(1), and near misses
+    for off, lo, hi in ((["sl", 0, 0, 2], 0, 4), (["sl", 0, 0, 2], 2, 4), (["sl", 0, 2, 4], 0, 2), (["sl", 0, 1, 3], 0, 4),
+                        (["sl", 0, 3, 4], 0, 3)):
+        cases.append({"k": "cyc", "sigw": {"0": 4, "2": 2}, "ports": [2], "variant": "lsel",
+                      "st": [{"asg": "comb", "tgt": ["part", 0, lo, hi, off, 1, 1], "e": ["c", 1, 1], "cond": None}]})
     cases += gen_kinds(tier, rng)
     return cases
 
@@ -910,22 +982,29 @@ def gen_kinds(tier, rng):
     """for every cell kind: the cycle a[tb] -> cell(.. a[fb] ..)[rb] -> a[tb], entering and leaving the cell at the
     same bit index (fb = tb) or at different ones (closed by a[fb] = a[tb] ^ input), each with an acyclic twin"""
     cases = []
-    sigw = {"0": 4, "2": 2, "3": 4}
+    sigw = {"0": 4, "2": 2, "3": 4, "4": 1}
     arrangements = [("same", 0, 0), ("same", 2, 2), ("same", 3, 3), ("up", 1, 3), ("down", 2, 0)]
     if tier == "thorough":
         arrangements = [("same", i, i) for i in range(4)] + [("up" if f < t else "down", f, t)
                                                              for f in range(4) for t in range(4) if f != t]
 
-    def emit(kind, arr, fb, tb, body, extra=()):
+    def emit(kind, arr, fb, tb, body, extra=(), cd=None):
         for cyc in (True, False):
             st = [list(x) if isinstance(x, list) else dict(x) for x in body]
+            nb = len(st)
             if fb != tb:
                 # closing edge a[fb] <- a[tb]; the acyclic twin closes from an input instead
                 st.append(["comb", 0, fb, fb + 1, ["xor", ["b", 0, tb] if cyc else ["b", 3, tb], ["b", 2, 1]], None])
             elif not cyc:
                 continue
-            cases.append({"k": "cyc", "sigw": sigw, "st": st + list(extra), "ports": [2, 3],
-                          "variant": f"kind:{arr}", "kind": kind})
+            case = {"k": "cyc", "sigw": sigw, "st": st + list(extra), "ports": [2, 3],
+                    "variant": f"kind:{arr}", "kind": kind}
+            if cd is not None:
+                case["cd"] = cd
+            if arr in ("down", "up") and fb != tb and len(cases) % 2 and kind != "assign.partial":
+                # the cycle spans the hierarchy: body in submodule u1, closing edge in u1.u2, the rest on top
+                case["mods"] = [1] * nb + [2] + [0] * len(extra)
+            cases.append(case)
     for arr, fb, tb in arrangements:
         X = live(fb)
         for kind, E in kind_exprs(X, fb).items():
@@ -958,6 +1037,24 @@ def gen_kinds(tier, rng):
         emit("assign.partial", arr, fb, tb, [["comb", 0, 0, 4, ["sl", 3, 0, 4], ["b", 2, 0]],
                                              ["comb", 0, tb, tb + 1, Xb, ["b", 2, 1]]])
         emit("flipflop", arr, fb, tb, [["a", 0, tb, tb + 1, Xb, None]])
+        # dependencies through the assignment TARGET: part-select offset / array index reading the ring
+        emit("lsel.part", arr, fb, tb, [{"asg": "comb", "tgt": ["part", 0, tb, tb + 1, Xb, 1, 1], "e": src, "cond": None}])
+        emit("lsel.part2", arr, fb, tb, [{"asg": "comb", "tgt": ["part", 0, tb, min(4, tb + 2), ["cat", [Xb, ["b", 2, 0]]], 1, 1],
+                                          "e": src, "cond": None}])
+        emit("lsel.word", arr, fb, tb, [{"asg": "comb", "tgt": ["part", 0, 2 * (tb // 2), 2 * (tb // 2) + 2, Xb, 1, 1],
+                                         "e": src, "cond": None}] if fb // 2 != tb // 2 or fb == tb else
+             [{"asg": "comb", "tgt": ["part", 0, tb, tb + 1, Xb, 1, 1], "e": src, "cond": None}])
+        emit("lsel.arr", arr, fb, tb, [{"asg": "comb", "tgt": ["arr", Xb, [[0, tb, tb + 1], [4, 0, 1]]], "e": src, "cond": None}])
+        emit("lsel.arr.sync", arr, fb, tb, [{"asg": "a", "tgt": ["arr", Xb, [[0, tb, tb + 1], [4, 0, 1]]], "e": src, "cond": None}])
+        # a register's output depends on its clock and on an asynchronous reset
+        emit("ff.clk", arr, fb, tb, [["a", 0, tb, tb + 1, src, None], ["comb", CLK_SID, 0, 1, ["xor", Xb, ["b", 2, 0]], None]],
+             cd={"async": False})
+        emit("ff.arst", arr, fb, tb, [["a", 0, tb, tb + 1, src, None], ["comb", RST_SID, 0, 1, ["and", Xb, ["b", 2, 0]], None]],
+             cd={"async": True})
+        emit("ff.srst", arr, fb, tb, [["a", 0, tb, tb + 1, src, None], ["comb", RST_SID, 0, 1, ["and", Xb, ["b", 2, 0]], None]],
+             cd={"async": False})
+        emit("ff.clk.gate", arr, fb, tb, [["a", 0, tb, tb + 1, src, None],
+                                          ["comb", CLK_SID, 0, 1, ["and", ["b", 2, 0], ["rany", X]], None]], cd={"async": True})
         emit("mem.async", arr, fb, tb, [{"mem": "comb", "addr": Xb, "sid": 0, "lo": tb, "hi": tb + 1}])
         emit("mem.sync", arr, fb, tb, [{"mem": "a", "addr": Xb, "sid": 0, "lo": tb, "hi": tb + 1, "wport": 1}])
         emit("iob.o", arr, fb, tb, [{"iob": Xb, "oe": ["b", 2, 0], "sid": 0, "lo": tb, "hi": tb + 1}])
@@ -980,10 +1077,75 @@ def run_impl(c):
     return run_cyc(c)
 
 
+_XW2 = {"add": "X_add", "sub": "X_sub", "mul": "X_mul", "div": "X_div", "mod": "X_mod", "shl": "X_shl", "shr": "X_shr"}
+
+
+def coq_cexpr(e):
+    k = e[0]
+    if k == "b":
+        return f"(XSl {e[1]} {e[2]} {e[2] + 1})"
+    if k == "sl":
+        return f"(XSl {e[1]} {e[2]} {e[3]})"
+    if k in ("c", "any"):
+        return f"(XConst {e[-1]})"
+    if k == "init":
+        return "(XConst 1)"
+    if k == "cat":
+        return "(XCat [" + "; ".join(coq_cexpr(p) for p in e[1]) + "])"
+    if k == "esl":
+        return f"(XESl {coq_cexpr(e[1])} {e[2]} {e[3]})"
+    if k == "sgn":
+        return f"(XSgn {coq_cexpr(e[1])})"
+    if k == "not":
+        return f"(XNot {coq_cexpr(e[1])})"
+    if k in BIT2:
+        return f"(XBw {coq_cexpr(e[1])} {coq_cexpr(e[2])})"
+    if k == "mux":
+        return f"(XMux {coq_cexpr(e[1])} {coq_cexpr(e[2])} {coq_cexpr(e[3])})"
+    if k == "neg":
+        return f"(XW1 X_neg {coq_cexpr(e[1])})"
+    if k in WORD1:
+        return f"(XW1 X_red {coq_cexpr(e[1])})"
+    if k in WORD2:
+        return f"(XW2 {_XW2.get(k, 'X_cmp')} {coq_cexpr(e[1])} {coq_cexpr(e[2])})"
+    if k in ("bsel", "wsel"):
+        return f"(XPart {coq_cexpr(e[1])} {coq_cexpr(e[2])} {e[3]})"
+    if k == "matches":
+        return f"(XMatches {coq_cexpr(e[1])})"
+    if k == "arr":
+        return f"(XArr {coq_cexpr(e[1])} [" + "; ".join(coq_cexpr(p) for p in e[2]) + "])"
+    raise ValueError(k)
+
+
+def coq_cstmt(st, c):
+    st = norm_stmt(st)
+    if "mem" in st:
+        return f"(CSMem {blit(st['mem'] == 'comb')} {coq_cexpr(st['addr'])} {st['sid']} {st['lo']} {st['hi']})"
+    if "iob" in st:
+        return f"(CSIob {coq_cexpr(st['iob'])} {coq_cexpr(st['oe'])} {st['sid']} {st['lo']} {st['hi']})"
+    if "asg" not in st:
+        return "CSNone"
+    t = st["tgt"]
+    if t[0] == "sl":
+        ct = f"(CTSl {t[1]} {t[2]} {t[3]})"
+    elif t[0] == "part":
+        ct = f"(CTPart {t[1]} {t[2]} {t[3]} {coq_cexpr(t[4])} {t[5]} {t[6]})"
+    else:
+        ct = f"(CTArr {coq_cexpr(t[1])} [" + "; ".join(f"({s_}%nat, {lo}%nat, {hi}%nat)" for s_, lo, hi in t[2]) + "])"
+    if st["asg"] == "comb":
+        ff = "None"
+    else:
+        ff = "(Some [" + "; ".join(f"({a}%nat, {b}%nat)" for a, b in sorted(ff_deps(c))) + "])"
+    cond = st["cond"]
+    cc = "None" if cond is None else f"(Some {coq_cexpr(cond[1] if cond[0] == 'case' else cond)})"
+    return f"(CSAssign {ff} {ct} {coq_cexpr(st['e'])} {cc})"
+
+
 def coq_term(c):
     if c["k"] == "drv":
         return f"k_drv {coq_design(c)}"
-    return f"(k_cyc {coq_netlist(emit_pre_check(c))} ++ [1])"
+    sts = "[" + "; ".join(coq_cstmt(st, c) for st in c["st"]) + "]"
+    return f"(k_cyc {coq_netlist(emit_pre_check(c))} ++ k_gt {sts} ++ [1])"
 
 
 def classify(c):
@@ -1010,6 +1172,25 @@ def _has_part(f):
     return any("'part'" in repr(t) for _d, t, _w in f["st"]) or any(_has_part(s) for s in f["sub"])
 
 
+def _zero_width_sole_driver(c):
+    """exactly the finding's class: signal 0 is an Input port, its only logic is zero-width targets in ONE (module,
+    domain), nothing else drives it (the faithful model then reports connect() on bit 0 of signal 0)"""
+    keys, ok = set(), [True]
+
+    def walk(f, path):
+        if "out" in f:
+            ok[0] = False
+            return
+        for d, t, _w in f["st"]:
+            if tlen(t, c["sigw"]) != 0:
+                ok[0] = False
+            keys.add((path, d))
+        for i, s_ in enumerate(f["sub"]):
+            walk(s_, path + (i,))
+    walk(c["top"], ())
+    return ok[0] and len(keys) == 1 and any(s_ == 0 and d == "i" for s_, d in c["ports"])
+
+
 def known_finding(c, obs, model):
     if c["k"] == "drv":
         # faithful model agrees with the code everywhere but the SPEC flag (last element): rejected although
@@ -1017,7 +1198,7 @@ def known_finding(c, obs, model):
         if obs[:-1] == model[:-1] and obs[-1] == 1 and model[-1] == 0:
             if obs[0] == 1 and _has_part(c["top"]):
                 return S2
-            if obs[0] == 0 and c.get("tag") == "zero-width":
+            if obs[0] == 0 and model[:5] == [0, 1, 1, 0, 0] and _zero_width_sole_driver(c):
                 return F_ZERO
         return None
     return None
